@@ -4,6 +4,7 @@ import DdoModel.Engines.Mdd
 import DdoModel.Engines.Seq
 import DdoModel.Engines.Par
 import DdoModel.Engines.Ex
+import DdoModel.Engines.Viz
 /-! Line-protocol driver.  stdin: pairs of lines
       `C <engine> <id> <case tokens…>`
       `I <id> <implementation output tokens…>`
@@ -23,6 +24,7 @@ def dispatch (engine : String) (c i : List String) : Option Res :=
   | "par" => parEngine c i
   | "parstress" => parstressEngine c i
   | "ex" => exEngine c i
+  | "viz" => vizEngine c i
   | _ => none
 
 partial def loop (h : IO.FS.Stream) (out : IO.FS.Stream) : IO Unit := do
